@@ -540,6 +540,14 @@ pub fn failure_shapes(rng: &mut Rng) -> Vec<Shape> {
         p.lines.push(Line::Raw("    lw a0, nowhere".into()));
         exit(p);
     }));
+    // (an undefined label is undefined whatever it is called: names that resemble registers, the word
+    // `zero` in another case, mnemonics, CSR names)
+    let odd = *rng.pick(&["ZERO", "Zero", "zERO", "X5", "A0", "Sp", "RA", "Utvec", "ret_", "Li", "T7", "s12", "x32"]);
+    let odd_use = *rng.pick(&["lw a0, {}", "sw a0, {}, t0", "lb a0, {}", "sh a0, {}, t1"]);
+    v.push(mk("load-or-store-names-an-undefined-label-with-an-odd-name", &|p| {
+        p.lines.push(Line::Raw(format!("    {}", odd_use.replace("{}", odd))));
+        exit(p);
+    }));
     // empty and label-only programs
     v.push(Shape { name: "only-a-label", prog: Program { lines: vec![Line::Label("lonely".into())] } });
     v.push(Shape { name: "only-data", prog: Program { lines: vec![Line::SecData, Line::Label("d".into()), Line::Data(Data::Word(vec![1]))] } });
